@@ -33,10 +33,20 @@ func genStreams(r *simrt.RNG, tier string, variant int, prop string) Plan {
 	p := Plan{Family: "healthy", Params: map[string]int64{}}
 	p.Servers = []ServerPlan{{Addr: "srv0:1", PingNs: Pick(r, []int64{0, -1, int64(1e9)})}}
 	p.Clients = []ClientPlan{{Name: "A", Kind: "ws", Server: 0, BackoffMin: int64(10e6), BackoffMax: int64(100e6)}}
-	if r.Bool(0.25) {
+	if r.Bool(0.35) {
 		p.Clients = append(p.Clients, ClientPlan{Name: "B", Kind: "ws", Server: 0})
 	}
 	tok := 1
+	if len(p.Clients) == 2 && r.Bool(0.6) {
+		// twin streams on two connections of one server: same length, started
+		// together, so that their values and their closes overlap in time (whatever
+		// the server shares between connections is then used by both at once)
+		k := Pick(r, []int{1, 2, 3, 5})
+		for c := 0; c < 2; c++ {
+			p.Ops = append(p.Ops, Op{Kind: "sub", Client: c, Tok: tok, N: k})
+			tok++
+		}
+	}
 	ns := 1 + r.Intn(5)
 	total := 0
 	for i := 0; i < ns; i++ {
